@@ -135,8 +135,11 @@ Print Assumptions C15_routing.
    - declines are counted per visit (reset when a visit begins); the declining applications are
      consecutive, so r_decl = n means every application has declined exactly once since the first
      decline of the visit;  no application is asked once r_decl = n;
-   - when a poll of a visit ends with r_decl = n (n > 0) the station is in PassToken; and a visit ends in
-     PassToken only with r_decl = n or with the hold time over (end_token_hold_time <= now). *)
+   - when a poll of a visit ends with r_decl = n (n > 0) the station has passed the token on in that poll
+     (F20 repair: do_use_token ends in do_pass_token): it is in a token-passing state (pass_kind:
+     PassToken / AwaitStatusResponse after the GAP request / CheckTokenPass after the token telegram) or,
+     being its own successor, in the first state of its next visit (fresh_visit); and a visit ends that
+     way only with r_decl = n or with the hold time over (end_token_hold_time <= now). *)
 Theorem C15_round_robin : forall (A : Type) (ops : app_ops A) (p : params) (f0 : fdl) (apps : list A)
     (evs : list (event A)) (f : fdl) (apps' : list A) (h : list hitem),
   fdl_new p = Ok f0 -> run A ops f0 apps evs = Ok (f, apps', h) ->
@@ -158,7 +161,8 @@ Print Assumptions C15_cycle_completed_iff_all_declined.
 (* ---------------------------------------------------------------------------------------------- *)
 (* C15_zero_apps: without applications no callback is ever made and the station never waits for a data
    reply; do_use_token then asks nobody, does not reach the `% apps.len()` of schedule_next_application
-   (which would be a division by zero) and goes on to pass the token, hold time over or not. *)
+   (which would be a division by zero) and goes on to pass the token in the same poll (the rest of the
+   poll is do_pass_token from PassToken{do_gap, First}), hold time over or not. *)
 Theorem C15_zero_apps : forall (A : Type) (ops : app_ops A) (p : params) (f0 : fdl) (evs : list (event A))
     (f : fdl) (apps' : list A) (h : list hitem),
   fdl_new p = Ok f0 -> run A ops f0 [] evs = Ok (f, apps', h) ->
@@ -171,19 +175,21 @@ Theorem C15_zero_apps_passes_token : forall (A : Type) (ops : app_ops A) (f : fd
   w_apps w = [] -> f_state f = UseToken tk fa fcd -> f_last_token_time f = tk -> f_lba f = Some l ->
   i64_ok (l + p_bits_to_time (f_p f) sync_pause_bits) = true ->
   l + p_bits_to_time (f_p f) sync_pause_bits < now ->
-  exists w', do_use_token A ops f now w = Ok (set_st f (PassToken true first_attempt), w') /\
-             w_calls w' = w_calls w /\ w_tx w' = w_tx w /\ w_apps w' = [].
+  exists w1, do_use_token A ops f now w = do_pass_token A (set_st f (PassToken true first_attempt)) now w1 /\
+             w_calls w1 = w_calls w /\ w_tx w1 = w_tx w /\ w_apps w1 = [] /\
+             forall f' w', do_use_token A ops f now w = Ok (f', w') -> w_calls w' = w_calls w /\ w_apps w' = [].
 Proof. exact do_use_token_zero_apps. Qed.
 Print Assumptions C15_zero_apps_passes_token.
 
 (* ---------------------------------------------------------------------------------------------- *)
 (* Non-vacuity.  A concrete application (sends one SRD request to station 5, then declines) on a
    concrete token-holding station that satisfies the invariant, four polls: the model produces the log
-   transmit->Some(reply from 5); receive_reply 5 SC; transmit->None and ends in PassToken. *)
+   transmit->Some(reply from 5); receive_reply 5 SC; transmit->None and passes the token in that same
+   poll (to itself, the station being alone in its ring: the next visit begins at the time of that poll). *)
 Example C15_demo_history : exists f apps h,
   run nat demo_ops demo_start [0%nat] demo_events = Ok (f, apps, h) /\
   calls_of h = [CallTransmit 0 false (Some (demo_wire, Some 5)); CallReceiveReply 0 5 TShortConf; CallTransmit 0 false None] /\
-  f_state f = PassToken true AttFirst /\ apps = [2%nat].
+  f_state f = UseToken 300000 None false /\ apps = [2%nat].
 Proof. exact demo_history. Qed.
 
 (* ... and from a newly created station (goes online, listens, claims the token after its time-out, is
